@@ -11,7 +11,8 @@ PINS = [('plasTeX/Packages/ifthen.py', 'ifthenelse.evaluate'), ('plasTeX/Package
 RULE = ('expression trees of the grammar atom/term/expr (comparisons over literals, macro-produced numbers and counters; '
         '\\boolean, \\isodd, \\equal, \\isundefined, \\lengthtest atoms; \\not anywhere an operand may appear; \\( \\) grouping; '
         'left-associated \\and/\\or) enumerated exhaustively to a size bound and generated randomly beyond it, printed with random '
-        'blanks and upper/lower-case operator spellings; \\whiledo loops with 0-6 iterations; a malformed stream of raw token '
+        'blanks and upper/lower-case operator spellings; the two branches written as {T}{F}, with an empty then- or else-branch, or as '
+        'side effects on a counter; \\whiledo loops with 0-6 iterations; a malformed stream of raw token '
         'lists. Non-trivial = the tree contains at least one of \\not/\\and/\\or (or a loop that iterates at least once).')
 TRUSTED = ['modelled, not verified: TeX.readNumber on the digit run of a literal (C05), expansion of \\value and user macros to '
            'their digits, the dimension reader used by \\lengthtest (exact rationals in the Model, floats in the code)']
@@ -284,7 +285,7 @@ def streams(rng, tier, boost):
     n = (400 if tier == 'quick' else 4000) * boost
     for i in range(n):
         d = rng.choice([1, 2, 2, 3, 3, 4])
-        out.append(('random', dict(kind='expr', tree=rand_expr(rng, d), blanks=rng.randint(1, 10 ** 6))))
+        out.append(('random', dict(kind='expr', tree=rand_expr(rng, d), blanks=rng.randint(1, 10 ** 6), br=rng.choice([0, 0, 1, 2, 3]))))
     for i in range((60 if tier == 'quick' else 400) * boost):
         c0 = rng.randint(0, 3)
         step = rng.randint(1, 2)
@@ -300,34 +301,54 @@ def streams(rng, tier, boost):
         inner = rand_expr(rng, 1, var=True) if rng.random() < 0.6 else None
         if rng.random() < 0.5:   # redundant parentheses around the whole test
             tree = ['term', ['atom', ['paren', tree]]]
-        out.append(('whiledo', dict(kind='loop', c0=c0, step=step, tree=tree, inner=inner, blanks=rng.randint(1, 10 ** 6))))
+        out.append(('whiledo', dict(kind='loop', c0=c0, step=step, tree=tree, inner=inner, blanks=rng.randint(1, 10 ** 6), br=rng.choice([0, 0, 1, 2, 3]))))
     for i in range((150 if tier == 'quick' else 1500) * boost):
         out.append(('malformed', dict(kind='raw', toks=rand_raw(rng))))
     return out
 
 
 def search_streams(rng, tier):
-    return [('search', dict(kind='expr', tree=rand_expr(rng, rng.choice([2, 3, 4])), blanks=rng.randint(1, 10 ** 6))) for _ in range(3000)]
+    return [('search', dict(kind='expr', tree=rand_expr(rng, rng.choice([2, 3, 4])), blanks=rng.randint(1, 10 ** 6), br=rng.choice([0, 1, 2, 3]))) for _ in range(3000)]
 
 
 PREAMBLE = ('\\usepackage{ifthen}\\newboolean{flagyes}\\setboolean{flagyes}{true}\\newboolean{flagno}\\setboolean{flagno}{false}'
             '\\newcommand{\\zzdefined}{}')
 
 
+# how the two branches are written (a printing choice; the selected branch is recognised by its marker or by the counter):
+#   0: {T}{F}   1: {}{F} (empty then-branch)   2: {T}{} (empty else-branch)
+#   3: both branches carry a side effect, {\setcounter{brc}{1}}{\setcounter{brc}{2}}, and no text
+def branches(br, t, f):
+    if br == 1:
+        return '{}{%s}' % f
+    if br == 2:
+        return '{%s}{}' % t
+    if br == 3:
+        return '{\\setcounter{brc%s}{1}}{\\setcounter{brc%s}{2}}' % (t, t)
+    return '{%s}{%s}' % (t, f)
+
+
+def branch_tail(br, t):
+    return ('Z\\arabic{brc%s}' % t) if br == 3 else ''
+
+
 def source(case):
     import random
+    br = case.get('br', 0)
     if case['kind'] == 'raw':
         return PREAMBLE + '\\ifthenelse{' + print_raw(case['toks']) + '}{T}{F}'
     sp = spaces(random.Random(case['blanks'])) if case['blanks'] else itertools.repeat('')
     names = itertools.count()
     body, pre = print_tree(case['tree'], sp, names)
     if case['kind'] == 'expr':
-        return PREAMBLE + ''.join(pre) + '\\ifthenelse{' + body + '}{T}{F}'
+        return (PREAMBLE + ('\\newcounter{brcT}' if br == 3 else '') + ''.join(pre) + '\\ifthenelse{' + body + '}' + branches(br, 'T', 'F')
+                + branch_tail(br, 'T'))
     inner = ''
     if case.get('inner') is not None:
         ibody, ipre = print_tree(case['inner'], sp, names)
         pre = pre + ipre
-        inner = '\\ifthenelse{' + ibody + '}{Y}{N}'
+        # (style 3 is not used inside the loop body: the observation there is the sequence of markers)
+        inner = '\\ifthenelse{' + ibody + '}' + branches(br if br != 3 else 0, 'Y', 'N')
     return (PREAMBLE + ''.join(pre) + '\\newcounter{loopc}\\setcounter{loopc}{%d}' % case['c0'] +
             '\\whiledo{' + body + '}{X' + inner + '\\addtocounter{loopc}{%d}}' % case['step'] + 'E\\arabic{loopc}')
 
@@ -358,15 +379,30 @@ def run_impl(case):
     except (IndexError, ValueError) as e:
         return [-2, 0]
     txt = texrun.text_nospace(doc)
+    br = case.get('br', 0)
     if case['kind'] == 'loop':
         import re
         m = re.fullmatch(r'((?:X[YN]?)*)E(-?\d+)', txt)
         if m:
             if case.get('inner') is not None:
-                return [0, m.group(1).count('X'), int(m.group(2)), [1 if ch == 'Y' else 0 for ch in m.group(1) if ch in 'YN']]
+                # with an empty branch the missing marker is the observation
+                seq = re.findall(r'X([YN]?)', m.group(1))
+                if br == 1 and 'Y' not in seq:
+                    seq = ['Y' if x == '' else x for x in seq]
+                elif br == 2 and 'N' not in seq:
+                    seq = ['N' if x == '' else x for x in seq]
+                if '' in seq:
+                    return ['text', txt]
+                return [0, m.group(1).count('X'), int(m.group(2)), [1 if ch == 'Y' else 0 for ch in seq]]
             return [0, m.group(1).count('X'), int(m.group(2))]
         return ['text', txt]
-    if txt in ('T', 'F'):
+    if br == 1 and txt in ('', 'F'):
+        return [0, 1 if txt == '' else 0]
+    if br == 2 and txt in ('T', ''):
+        return [0, 1 if txt == 'T' else 0]
+    if br == 3 and txt in ('Z1', 'Z2'):
+        return [0, 1 if txt == 'Z1' else 0]
+    if br == 0 and txt in ('T', 'F'):
         return [0, 1 if txt == 'T' else 0]
     return ['text', txt]
 
